@@ -1276,6 +1276,121 @@ class C18Executor(Executor):
                         self.unsupported(n, f"{o.kind} leaving a generator helper")
         return out
 
+    # -- `for x in helper(..): BODY` over an uncontracted generator of the module (round 6) ------------------------
+    def loop_over_helper(self, s, st):
+        """The loop is executed as the helper's body with every `yield v` replaced by `for x in (v,): BODY` and every
+        `yield from E` by `for x in E: BODY` (push form of the same iteration; the helper's locals are renamed apart, its
+        parameters are assigned from the call's arguments).  That is the code the loop runs when nothing leaves it early, so
+        the shapes where something could are out of subset: `break` in BODY, `return` in the helper, a yield inside try / with
+        (generator close would run handlers), yields in expression position, nested functions.  -> statements or None."""
+        h = self.generator_helper(st, s.iter) if isinstance(s.iter, _ast.Call) else None
+        if h is None:
+            return None
+        fnode, self_val = h
+        call = s.iter
+        cached = self.__dict__.setdefault("_helper_loops", {}).get(id(s))
+        if cached is not None:
+            return cached
+
+        def breaks(stmts):
+            for x in stmts:
+                if isinstance(x, _ast.Break):
+                    return True
+                if isinstance(x, (_ast.For, _ast.While, _ast.FunctionDef, _ast.AsyncFunctionDef, _ast.ClassDef)):
+                    if isinstance(x, (_ast.For, _ast.While)) and breaks(x.orelse):
+                        return True
+                    continue
+                for fld in ("body", "orelse", "finalbody"):
+                    if breaks(getattr(x, fld, []) or []):
+                        return True
+                if any(breaks(hd.body) for hd in getattr(x, "handlers", [])):
+                    return True
+            return False
+        if breaks(s.body) or any(isinstance(k, _ast.Starred) for k in call.args) or any(k.arg is None for k in call.keywords):
+            self.unsupported(s, "loop over a generator helper: break in the body / starred arguments")
+        for x in _ast.walk(fnode):
+            if x is not fnode and isinstance(x, (_ast.FunctionDef, _ast.AsyncFunctionDef, _ast.Lambda, _ast.ClassDef, _ast.Return, _ast.Global,
+                                                 _ast.Nonlocal, _ast.Await)):
+                self.unsupported(s, f"loop over generator helper {fnode.name}: {type(x).__name__} inside the helper")
+        a = fnode.args
+        if a.vararg or a.kwarg or a.posonlyargs:
+            self.unsupported(s, f"loop over generator helper {fnode.name}: variadic parameters")
+        params = [p.arg for p in a.args]
+        if self_val is not None:
+            params = params[1:]
+        pre = f"_g{s.lineno}_{s.col_offset}_"
+        given = dict(zip(params, call.args))
+        if len(call.args) > len(params):
+            self.unsupported(s, "too many positional args")
+        for k in call.keywords:
+            if k.arg in given or k.arg not in params + [p.arg for p in a.kwonlyargs]:
+                self.unsupported(s, f"unexpected keyword {k.arg}")
+            given[k.arg] = k.value
+        dflt = dict(zip([p.arg for p in a.args][len(a.args) - len(a.defaults):], a.defaults))
+        dflt.update({p.arg: d for p, d in zip(a.kwonlyargs, a.kw_defaults) if d is not None})
+        local = set(params) | {p.arg for p in a.kwonlyargs}
+        for x in _ast.walk(fnode):
+            if isinstance(x, _ast.Name) and isinstance(x.ctx, (_ast.Store, _ast.Del)):
+                local.add(x.id)
+            elif isinstance(x, _ast.ExceptHandler) and x.name:
+                self.unsupported(s, "named exception handler inside a generator helper")
+        keep_self = a.args[0].arg if self_val is not None and a.args else None
+        if keep_self is not None and keep_self != "self":
+            self.unsupported(s, "generator helper whose first parameter is not called self")
+        local.discard(keep_self)
+        binds = []
+        for pname in params + [p.arg for p in a.kwonlyargs]:
+            src = given.get(pname, dflt.get(pname))
+            if src is None or (pname not in given and not isinstance(src, _ast.Constant)):
+                self.unsupported(s, f"loop over generator helper {fnode.name}: argument {pname}")
+            binds.append(_ast.Assign(targets=[_ast.Name(id=pre + pname, ctx=_ast.Store())], value=src))
+        import copy
+
+        class Ren(_ast.NodeTransformer):
+            def visit_Name(self, node):
+                return _ast.copy_location(_ast.Name(id=pre + node.id, ctx=node.ctx), node) if node.id in local else node
+        outer = self
+
+        def rewrite(stmts, guarded):
+            out = []
+            for x in stmts:
+                if isinstance(x, _ast.Expr) and isinstance(x.value, (_ast.Yield, _ast.YieldFrom)):
+                    if guarded:
+                        outer.unsupported(s, "yield inside try / with of a generator helper")
+                    v = x.value.value
+                    if isinstance(x.value, _ast.Yield):
+                        v = _ast.Tuple(elts=[v if v is not None else _ast.Constant(value=None)], ctx=_ast.Load())
+                    if any(isinstance(y, (_ast.Yield, _ast.YieldFrom)) for y in _ast.walk(v)):
+                        outer.unsupported(s, "nested yield")
+                    out.append(_ast.copy_location(_ast.For(target=s.target, iter=v, body=s.body, orelse=[], type_comment=None), x))
+                    continue
+                for sub in _ast.iter_child_nodes(x):
+                    if not isinstance(sub, (_ast.stmt, _ast.ExceptHandler)) and any(isinstance(y, (_ast.Yield, _ast.YieldFrom)) for y in _ast.walk(sub)):
+                        outer.unsupported(s, "yield in expression position inside a generator helper")
+                g2 = guarded or isinstance(x, (_ast.Try, _ast.With))
+                for fld in ("body", "orelse", "finalbody"):
+                    if isinstance(getattr(x, fld, None), list):
+                        setattr(x, fld, rewrite(getattr(x, fld), g2))
+                for hd in getattr(x, "handlers", []):
+                    hd.body = rewrite(hd.body, True)
+                out.append(x)
+            return out
+        body = [Ren().visit(copy.deepcopy(x)) for x in fnode.body
+                if not (isinstance(x, _ast.Expr) and isinstance(x.value, _ast.Constant))]
+        stmts = binds + rewrite(body, False) + list(s.orelse)
+        for x in stmts:
+            _ast.fix_missing_locations(_ast.copy_location(x, s) if not hasattr(x, "lineno") else x)
+        self._helper_loops[id(s)] = stmts
+        self.__dict__.setdefault("_helper_keep", []).append(s)
+        return stmts
+
+    def s_For(self, s, st):
+        if self.inline_depth == 0:
+            stmts = self.loop_over_helper(s, st)
+            if stmts is not None:
+                return self.exec_block(stmts, st)
+        return super().s_For(s, st)
+
     def e_YieldFrom(self, n, st):
         if self.inline_depth == 0:
             h = self.generator_helper(st, n.value)
@@ -1308,7 +1423,9 @@ class C18Executor(Executor):
         return super().s_Expr(s, st)
 
     def e_ListComp(self, n, st):
-        if self.inline_depth == 0 and self.single_symbolic_comp(n, st) and self.contract is not None \
+        over_helper = self.inline_depth == 0 and len(n.generators) == 1 and not n.generators[0].is_async \
+            and isinstance(n.generators[0].iter, _ast.Call) and self.generator_helper(st, n.generators[0].iter) is not None
+        if over_helper or self.inline_depth == 0 and self.single_symbolic_comp(n, st) and self.contract is not None \
                 and any(isinstance(k, str) for k in self.contract.loops) and isinstance(n.generators[0].target, ast_Name) \
                 and self.role_of_iter(n.generators[0].iter, st) in self.contract.loops:
             tmp = f"_comp{n.lineno}_{n.col_offset}"
